@@ -1195,3 +1195,135 @@ Proof. vm_compute. split; reflexivity. Qed.
 Example lu_filter_typed_ex :
   lf_results (list_users m_nested [] s_nested tU 0 25%nat false doc1 1) = [[W1]] /\ key_ok tU 0 W1 = true.
 Proof. vm_compute. split; reflexivity. Qed.
+
+(* ---- the keys of a traversal that is cut short -------------------------------------------------- *)
+(* list_users_may (every key any source can send, set operators ignored) contains every key of every
+   complete answer: the over-approximation used for answers returned although the traversal failed
+   (result limit reached before the error surfaced). *)
+Section MayKeys.
+  Variables (m : model) (conds : list cid) (store : list tuple) (ft : tid) (fr : rid) (limit : nat).
+
+  Lemma merge_entries' here subs kc ce c e :
+    In c (l_outs (merge ft here subs kc ce)) -> In e c ->
+    In e here \/ exists x c', In x subs /\ In c' (l_outs x) /\ In e c'.
+  Proof.
+    intros Hc He. unfold merge in Hc. cbn [l_outs] in Hc. apply cdedup_In in Hc.
+    apply in_map_iff in Hc. destruct Hc as [cs [<- Hcs]]. apply cart_In in Hcs.
+    apply in_app_or in He. destruct He as [He|He]; [left; exact He|right].
+    apply in_concat in He. destruct He as [c' [Hc' He]].
+    destruct (Forall2_In_l _ _ _ _ Hcs Hc') as [lo [Hlo Hin]].
+    apply in_map_iff in Hlo. destruct Hlo as [x [<- Hx]]. exists x, c'. auto.
+  Qed.
+
+  Lemma go_keys_In (kd : obj -> rid -> list subject) o r l y k :
+    In y l -> In k (keys_rw m conds store ft kd o y r) ->
+    In k ((fix go (l : list rewrite) : list subject :=
+             match l with [] => [] | x :: l' => keys_rw m conds store ft kd o x r ++ go l' end) l).
+  Proof.
+    induction l as [|x l IH]; intros Hy Hk; [destruct Hy|].
+    apply in_or_app. destruct Hy as [->|Hy]; [left; exact Hk | right; apply IH; assumption].
+  Qed.
+
+  Lemma go_lres_In (dispatch : obj -> rid -> lres) o r l x :
+    In x ((fix go (l : list rewrite) : list lres :=
+             match l with [] => [] | y :: l' => expand_rw m conds store ft dispatch o y r :: go l' end) l) ->
+    exists y, In y l /\ x = expand_rw m conds store ft dispatch o y r.
+  Proof.
+    induction l as [|y l IHl]; intros Hx; [destruct Hx|].
+    destruct Hx as [<-|Hx]; [exists y; split; [left; reflexivity|reflexivity]|].
+    destruct (IHl Hx) as [z [Hz ->]]. exists z; split; [right; exact Hz|reflexivity].
+  Qed.
+
+  Section Step.
+    Variable dispatch : obj -> rid -> lres.
+    Variable kd : obj -> rid -> list subject.
+    Hypothesis HD : forall o r c e, In c (l_outs (dispatch o r)) -> In e c -> In (f_user e) (kd o r).
+
+    Lemma expand_rw_keys rw : forall o r c e,
+      In c (l_outs (expand_rw m conds store ft dispatch o rw r)) -> In e c ->
+      In (f_user e) (keys_rw m conds store ft kd o rw r).
+    Proof.
+      induction rw as [|r'|ts cc|l IH|l IH|b s IHb IHs] using rewrite_ind'; intros o r c e Hc He.
+      - cbn [expand_rw] in Hc. cbn [keys_rw]. apply in_flat_map.
+        destruct (merge_entries' _ _ _ _ _ _ Hc He) as [Hh | [x [c' [Hx [Hc' He']]]]].
+        + apply in_flat_map in Hh. destruct Hh as [t [Ht Hh]]. exists t. split; [exact Ht|].
+          destruct (t_sub t) as [u|ty|o' r''].
+          * destruct (N.eqb (otype u) ft); [|destruct Hh]. destruct Hh as [<-|[]]. left; reflexivity.
+          * destruct (N.eqb ty ft); [|destruct Hh]. destruct Hh as [<-|[]]. left; reflexivity.
+          * destruct Hh.
+        + apply in_flat_map in Hx. destruct Hx as [t [Ht Hx]]. exists t. split; [exact Ht|].
+          destruct (t_sub t) as [u|ty|o' r'']; [destruct Hx | destruct Hx |].
+          destruct Hx as [<-|[]]. exact (HD o' r'' c' e Hc' He').
+      - cbn [expand_rw] in Hc. cbn [keys_rw]. exact (HD o r' c e Hc He).
+      - cbn [expand_rw] in Hc. cbn [keys_rw]. apply in_flat_map.
+        destruct (merge_entries' _ _ _ _ _ _ Hc He) as [[] | [x [c' [Hx [Hc' He']]]]].
+        apply in_flat_map in Hx. destruct Hx as [t [Ht Hx]]. exists t. split; [exact Ht|].
+        destruct (t_sub t) as [o'|ty|o' r'']; [| destruct Hx | destruct Hx].
+        destruct Hx as [<-|[]]. exact (HD o' cc c' e Hc' He').
+      - cbn [expand_rw l_outs] in Hc. cbn [keys_rw]. apply cdedup_In in Hc. apply in_map_iff in Hc.
+        destruct Hc as [cs [<- Hcs]]. apply cart_In in Hcs.
+        apply lu_union_keys in He. destruct He as [R [e' [HR [He' Hu]]]]. rewrite <- Hu.
+        destruct (Forall2_In_l _ _ _ _ Hcs HR) as [lo [Hlo Hin]].
+        apply in_map_iff in Hlo. destruct Hlo as [x [<- Hx]].
+        destruct (go_lres_In _ _ _ _ _ Hx) as [y [Hy ->]]. rewrite Forall_forall in IH.
+        apply (go_keys_In kd o r l y); [exact Hy | exact (IH y Hy o r R e' Hin He')].
+      - cbn [expand_rw l_outs] in Hc. cbn [keys_rw]. apply cdedup_In in Hc. apply in_map_iff in Hc.
+        destruct Hc as [cs [<- Hcs]]. apply cart_In in Hcs.
+        apply lu_inter_keys in He. destruct He as [R [e' [HR [He' Hu]]]]. rewrite <- Hu.
+        destruct (Forall2_In_l _ _ _ _ Hcs HR) as [lo [Hlo Hin]].
+        apply in_map_iff in Hlo. destruct Hlo as [x [<- Hx]].
+        destruct (go_lres_In _ _ _ _ _ Hx) as [y [Hy ->]]. rewrite Forall_forall in IH.
+        apply (go_keys_In kd o r l y); [exact Hy | exact (IH y Hy o r R e' Hin He')].
+      - cbn [expand_rw] in Hc. cbn [keys_rw]. apply in_or_app.
+        destruct (l_cyc (expand_rw m conds store ft dispatch o s r)).
+        + cbn [l_outs] in Hc. destruct Hc as [<-|[]]. destruct He.
+        + cbn [l_outs] in Hc. apply cdedup_In in Hc. apply in_flat_map in Hc.
+          destruct Hc as [[bc sc] [Hp Hc]]. cbn [fst snd] in Hc.
+          apply in_flat_map in Hp. destruct Hp as [bc' [Hbc Hp]]. apply in_map_iff in Hp.
+          destruct Hp as [sc' [Heq Hsc]]. inversion Heq; subst bc' sc'.
+          apply in_flat_map in Hc. destruct Hc as [Bm [HB Hc]]. apply in_map_iff in Hc.
+          destruct Hc as [Sm [<- HS]].
+          apply lu_excl_keys in He. destruct He as [He|He].
+          * destruct (resolve_keys_In _ _ _ HB He) as [e' [He' <-]]. left. exact (IHb o r bc e' Hbc He').
+          * destruct (resolve_keys_In _ _ _ HS He) as [e' [He' <-]]. right. exact (IHs o r sc e' Hsc He').
+    Qed.
+  End Step.
+
+  Lemma expand_keys fuel : forall depth visited o r c e,
+    In c (l_outs (expand m conds store ft fr limit fuel depth visited o r)) -> In e c ->
+    In (f_user e) (keys_expand m conds store ft fr limit fuel depth visited o r).
+  Proof.
+    induction fuel as [|f IH]; intros depth visited o r c e; cbn [expand keys_expand].
+    - intros [<-|[]] [].
+    - destruct (Nat.leb limit depth); [intros [<-|[]] []|].
+      destruct (existsb (atom_eqb (o, r)) visited); [intros [<-|[]] []|].
+      intros Hc He. apply in_or_app.
+      assert (G : forall (x : lres) K,
+                 (forall c' e', In c' (l_outs x) -> In e' c' -> In (f_user e') K) ->
+                 In c (l_outs (add_here (if N.eqb (otype o) ft && N.eqb r fr then [mkf (SSet o r) Has []] else []) x)) ->
+                 In (f_user e) (if N.eqb (otype o) ft && N.eqb r fr then [SSet o r] else []) \/ In (f_user e) K).
+      { intros x K HK Hc'. unfold add_here in Hc'. cbn [l_outs] in Hc'. apply in_map_iff in Hc'.
+        destruct Hc' as [c' [<- Hc'']]. apply in_app_or in He. destruct He as [He|He].
+        - left. destruct (N.eqb (otype o) ft && N.eqb r fr); [|destruct He]. destruct He as [<-|[]]. left; reflexivity.
+        - right. exact (HK c' e Hc'' He). }
+      destruct (find_type m (otype o)) as [td|].
+      2:{ apply (G (lres_err LOther) []); [intros c' e' [<-|[]] [] | exact Hc]. }
+      destruct (find_rel (td_rels td) r) as [rd|].
+      2:{ apply (G lres_empty []); [intros c' e' [<-|[]] [] | exact Hc]. }
+      apply (G _ _ (fun c' e' => expand_rw_keys _ _ (fun o' r' c'' e'' => IH (S depth) ((o, r) :: visited) o' r' c'' e'') (rd_rw rd) o r c' e')).
+      exact Hc.
+  Qed.
+
+  Theorem list_users_may_covers pruned o r res u :
+    In res (lf_results (list_users m conds store ft fr limit pruned o r)) -> In u res ->
+    In u (list_users_may m conds store ft fr limit pruned o r).
+  Proof.
+    unfold list_users, list_users_may.
+    destruct (pruned && negb (N.eqb (otype o) ft && N.eqb r fr)); cbn [lf_results].
+    - intros [<-|[]] [].
+    - intros H Hu. apply set_dedup_In in H. apply in_flat_map in H. destruct H as [c [Hc H]].
+      apply in_map_iff in H. destruct H as [mp [<- Hmp]].
+      apply final_In in Hu. destruct (resolve_keys_In _ _ _ Hmp Hu) as [e [He <-]].
+      apply sdedup_In. exact (expand_keys _ _ _ _ _ c e Hc He).
+  Qed.
+End MayKeys.
